@@ -338,6 +338,18 @@ fn pair_case(idx: usize, c: &Value, seed: u64, rep: &mut Report) {
     }
     let mut out: Vec<(String, Value)> = vec![];
     let mut variants = 0;
+    if let Some(sc) = c.get("scale") {
+        // sliver pairs: the lattice pair shrunk about the origin (no translation: the sliver must stay far above the
+        // spacing of f32 at the boxes' coordinates), axis-aligned and under a common rotation
+        let s = ji(&sc[0]) as f64 / ji(&sc[1]) as f64;
+        rep.count("pair_sliver", 1);
+        pair_variant(c, &la, &lb, &Motion { s, theta: 0.0, tx: 0.0, ty: 0.0 }, true, "shrunk/none", &mut out);
+        pair_variant(c, &la, &lb, &Motion { s, theta: 0.0, tx: 0.0, ty: 0.0 }, false, "shrunk/some", &mut out);
+        pair_variant(c, &la, &lb, &Motion { s, theta: THETAS[(h % 10) as usize], tx: 0.0, ty: 0.0 }, false, "shrunk/rotated", &mut out);
+        rep.steps += 3;
+        report_once(idx, c, out, rep);
+        return;
+    }
     if la.k == 0 || lb.k == 0 {
         pair_variant(c, &la, &lb, &IDENTITY, true, "lattice/none", &mut out);
         variants += 1;
